@@ -1,0 +1,9 @@
+//go:build !verif
+
+package common
+
+// VerifEnabled reports whether the verification hooks are compiled in.
+const VerifEnabled = false
+
+// VerifSched is a no-op when the verification hooks are compiled out.
+func VerifSched(any, string) func() { return func() {} }
